@@ -1,22 +1,26 @@
 #!/bin/bash
-# dev helper: quickrun.sh <engine> <harness-src> [seed] [tier]
+# dev helper: tools/quickrun.sh <engine> <harness-src> [seed] [tier]   (does not rebuild /repo's library)
 set -e
+V="$(cd "$(dirname "$0")/.." && pwd)"
 E=$1; SRC=$2; SEED=${3:-1}; TIER=${4:-quick}
-cd /verif
-g++ -std=gnu++11 -O1 -g -w -DMUSCLE_ENABLE_ZLIB_ENCODING -DMUSCLE_NO_EXCEPTIONS -DMUSCLE_VERIF_HOOKS -fsanitize=address,undefined -I/repo -Iharness $SRC .build/repo/libmuscle.a -lz -lpthread -o .build/h_$E
+LIB=${VERIF_LIB:-$V/.build/repo/libmuscle.a}
+T=$V/.build/qr; mkdir -p $T
+cd $V
+g++ -std=gnu++11 -O1 -g -w -DMUSCLE_ENABLE_ZLIB_ENCODING -DMUSCLE_NO_EXCEPTIONS -DMUSCLE_VERIF_HOOKS -fsanitize=address,undefined -I/repo -Iharness $SRC $LIB -lz -lpthread -o $T/h_$E
 (cd lean && lake build mdriver 2>&1 | grep -v "^✔\|^Build completed" || true)
 export ASAN_OPTIONS=detect_leaks=0:allocator_may_return_null=1
-.build/h_$E gen $SEED $TIER 0 1 > /tmp/$E.ops
-.build/h_$E run --oracle /tmp/$E.oracle < /tmp/$E.ops > /tmp/$E.impl || echo "HARNESS EXIT $?"
-lean/.lake/build/bin/mdriver $E < /tmp/$E.ops > /tmp/$E.model
-wc -l /tmp/$E.ops /tmp/$E.impl /tmp/$E.model /tmp/$E.oracle
+export UBSAN_OPTIONS=halt_on_error=1:print_stacktrace=1
+$T/h_$E gen $SEED $TIER 0 1 > $T/$E.ops
+$T/h_$E run --oracle $T/$E.oracle < $T/$E.ops > $T/$E.impl || echo "HARNESS EXIT $?"
+lean/.lake/build/bin/mdriver $E < $T/$E.ops > $T/$E.model
+wc -l $T/$E.ops $T/$E.impl $T/$E.model $T/$E.oracle
 python3 - <<PY
-a=open('/tmp/$E.impl',errors='replace').read().split('\n'); b=open('/tmp/$E.model',errors='replace').read().split('\n'); o=open('/tmp/$E.ops',errors='replace').read().split('\n')
+a=open('$T/$E.impl',errors='replace').read().split('\n'); b=open('$T/$E.model',errors='replace').read().split('\n'); o=open('$T/$E.ops',errors='replace').read().split('\n')
 n=0
 for i,(x,y) in enumerate(zip(a,b)):
     if x!=y and y!='?':
         n+=1
         if n<=8: print(i+1, o[i][:150], '\n   IMPL :',x[:300],'\n   MODEL:',y[:300])
-print('mismatches',n)
+print('mismatches',n, 'lines', len(a), len(b))
 PY
-head -5 /tmp/$E.oracle | cut -c1-400
+head -5 $T/$E.oracle | cut -c1-400
